@@ -81,3 +81,10 @@ Proof.
   unfold spec_of_getter. destruct (strip_prefix "try_get_" name); [apply spec_of_suffixed_k8|].
   destruct (strip_prefix "get_" name); [apply spec_of_suffixed_k8|done].
 Qed.
+Lemma spec_of_putter_k8 name d : spec_of_putter name = Some d -> g_kind d = GK8 -> g_size d = 1.
+Proof. unfold spec_of_putter. destruct (strip_prefix "put_" name); [apply spec_of_suffixed_k8|done]. Qed.
+Lemma spec_of_suffixed_try t rest d : spec_of_suffixed t rest = Some d -> g_try d = t.
+Proof.
+  unfold spec_of_suffixed. destruct (match strip_suffix "_le" rest with Some _ => _ | None => _ end) as [ty e].
+  destruct (ty_spec ty) as [[[k sz] sg]|]; [|done]. intros H; by inversion H.
+Qed.
